@@ -88,3 +88,65 @@ REPLAY = 'native'
 TRUSTED = ['cbmc 6.11.0', 'lowering rules of specs/C20/spec.py']
 NOT_DECIDED = ['symlink resolution inside the underlying filesystem (the statement is lexical)']
 ASSUMPTIONS = []
+
+
+# ---------------------------------------------------------------- every forwarding operation of SubFileSystem
+# The methods are enumerated from /repo/fs/subfs.cpp on every run; each one that takes a path is lowered and verified:
+# no pointer to a caller-supplied path ever reaches the underlying filesystem - only NULL (rejected) or a PathCat buffer.
+import os, re
+_REPO = os.environ.get('VERIF_REPO', '/repo')
+OPS_EXEMPT = {('symlink', 'oldname')}      # the link's content, not a path operated on by the sub-filesystem
+OP_RULES = [
+    (r'PathCat (\w+)\(this, (\w+)\);', r'struct PathCat \1; PathCat_ctor_c(&\1, this, &\2);', 0),
+    (r'LOG_ERROR_RETURN\(\w+, -1,[^;]*;', 'return -1;', 0),
+    (r'!underlay_xattrfs\b', '!this->underlay_xattrfs', 0),
+    (r'(?:underlayfs|underlay_xattrfs)->(\w+)\(([^;]*)\);', r'UL_CALL(\2);', 1),
+]
+def _enum_ops():
+    try:
+        txt = open(os.path.join(_REPO, SF)).read()
+    except OSError:
+        return []
+    a = txt.find('class SubFileSystem'); b = txt.find('class SubFile ', a)
+    ops = []
+    for m in re.finditer(r'virtual\s+([\w\s\*]+?)\s*\b(\w+)\(([^()]*)\)\s*override\s*(?=\{)', txt[a:b]):
+        params = [x.strip() for x in m.group(3).split(',') if x.strip()]
+        if not any(re.match(r'const\s+char\s*\*', q) for q in params):
+            continue
+        ops.append((m.group(2), params, m.group(0)))
+    return ops
+OPS = _enum_ops()
+for _k, (_name, _params, _sig) in enumerate(OPS):
+    TARGETS.append(Target('op%d' % _k, SF, re.escape(_sig.strip()), rules=OP_RULES, note=_name))
+
+def ops_unit(lowered):
+    out = [open(os.path.join(os.path.dirname(__file__), 'ops_prelude.h')).read()]
+    names = []
+    for k, (name, params, sig) in enumerate(OPS):
+        cparams, args, raw = [], [], 0
+        for q in params:
+            mm = re.match(r'(.*?)(\w+)\s*(\[\d*\])?$', q)
+            ty, pn = mm.group(1).strip(), mm.group(2)
+            cparams.append(q)
+            if re.match(r'const\s+char\s*\*$', ty):
+                if (name, pn) in OPS_EXEMPT or pn in ('name',):
+                    args.append('EXEMPTP')
+                else:
+                    raw += 1; args.append('RAW%d' % raw)
+            elif '*' in ty or mm.group(3):
+                args.append('(void*)OTHERBUF')
+            else:
+                args.append('(%s)nondet_long()' % ty)
+        out.append('long op%d(struct SubFileSystem *this, %s)\n/*@BODY op%d@*/' % (k, ', '.join(cparams), k))
+        out.append('void h_op%d(void) { ops_setup(); struct SubFileSystem fs; fs.underlay_xattrfs = nondet_long() ? (void*)OTHERBUF : 0; N_RAW = %d; (void)op%d(&fs, %s);\n'
+                   '  __CPROVER_assert(UL_N <= 1, "%s: forwards at most once"); __CPROVER_assert(UL_N == 0 || N_CAT == N_RAW, "%s: every path argument went through PathCat before the call"); __CPROVER_assert(0, "CANARY h_op%d reachable"); }'
+                   % (k, raw, k, ', '.join(args), name, name, k))
+        names.append(name)
+    text = '\n'.join(out)
+    def sub(m):
+        return m.group(0)
+    return text
+ops_unit.__name__ = 'ops_unit(generated)'
+UNITS['ops.c'] = ops_unit
+for _k, (_name, _params, _sig) in enumerate(OPS):
+    PROOFS.append(Proof('ops/%s#%d' % (_name, _k), 'ops.c', 'h_op%d' % _k, kind='L', min_obligations=2, timeout=120))
